@@ -1428,7 +1428,7 @@ def main(chk: C.Check, build: C.Build) -> None:
 
     # ---- programs
     programs: list[tuple[dict[str, str], bool]] = [(p, True) for p in CORPUS]
-    nprog = 1500 if thorough else 110
+    nprog = 900 if thorough else 110
     for i in range(nprog):
         cyc = i % 10 == 9
         programs.append((gen_program(r, depth=r.choice([1, 2, 2, 3]) if thorough else r.choice([1, 2, 2]),
@@ -1555,7 +1555,7 @@ def main(chk: C.Check, build: C.Build) -> None:
                       "model": f"let L := {c_loader(eng)} in model_trace L {reads} {oracle_terms(run['decisions'])}",
                       "replay": {"templates": eng.templates, "events": run["events"]}})
 
-    C.correspond(chk, "c11", IMPORTS, "", items, what="Analysis.analyze/analyze_async/helpers/run", shard=8 if not thorough else 40)
+    C.correspond(chk, "c11", IMPORTS, "", items, what="Analysis.analyze/analyze_async/helpers/run", shard=16 if not thorough else 40)
     C.proofs_verdict(chk, proofs_ok)
 
     chk.coverage.update({
